@@ -233,6 +233,35 @@ def _gen_chord_notes(rng, frame_times, total):
     return notes
 
 
+def _gen_near_tie_first_frame(rng):
+    """chords_e2e case whose FIRST frame is a triad held for the whole frame plus a seventh / out-of-key tone held for
+    part of it (two chord readings close in frame likelihood that differ in how many chord pitches are in the key),
+    followed by diatonic chords that fix the key.  Root and key vary; the run is repeated transposed by k."""
+    g = _gen_grid(rng)
+    spc = g['spc']
+    key = rng.randrange(12)
+    minor = rng.random() < 0.3
+    degree = rng.choice([0, 0, 5, 7]) if not minor else rng.choice([2, 4, 9])      # I / IV / V or ii / iii / vi
+    root = (key + degree) % 12
+    triad = [0, 3, 7] if minor else [0, 4, 7]
+    extra = rng.choice([10, 10, 11, 1, 6, 8, 3 if not minor else 4])
+    frac_num, frac_den = rng.choice([(1, 4), (1, 2), (1, 2), (3, 4), (1, 8), (7, 8)])
+    part = spc * frac_num // frac_den
+    notes = [[48 + (root + iv) % 12, 0, spc] for iv in triad]
+    start = rng.choice([0, spc - part])
+    notes.append([60 + (root + extra) % 12, start, start + part])
+    T = rng.randint(2, 5)
+    prog = [rng.choice([5, 7, 0, 9]) for _ in range(T - 1)]
+    prog[-1] = 0
+    for f, d in enumerate(prog, start=1):
+        r2 = (key + d) % 12
+        kind = [0, 3, 7] if d == 9 else [0, 4, 7]
+        notes += [[48 + (r2 + iv) % 12, f * spc, (f + 1) * spc] for iv in kind]
+    g.update({'mode': 'fixed', 'total': T * spc, 'notes': notes, 'k': rng.randint(1, 11), 'addkeys': rng.random() < 0.7,
+              'params': {} if rng.random() < 0.7 else {'chord_note_concentration': rng.choice([100.0, 50.0])}})
+    return {'op': 'chords_e2e', 'input': g}
+
+
 CHORD_PARAMS = [None,
                 {'key_change_prob': 0.01, 'chord_change_prob': 0.3, 'chord_pitch_out_of_key_prob': 0.05},
                 {'key_change_prob': 0.0005, 'chord_change_prob': 0.7, 'chord_pitch_out_of_key_prob': 0.02},
@@ -270,6 +299,12 @@ def corpus():
     out.append({'op': 'melody_e2e', 'input': {'notes': zl, 'total': 64 * GRID, 'k': 3, 'params': {}}})
     out.append({'op': 'melody_e2e', 'input': {'notes': [[60, 0, 64 * GRID, 0, 0, 0], [64, 64 * GRID, 128 * GRID, 0, 0, 0]],
                                                'total': 128 * GRID, 'k': 5, 'params': {}}})
+    S = 2 ** 40
+    demo = [(60, 0, 2), (64, 0, 2), (67, 0, 2), (70, 1, 2), (60, 2, 4), (65, 2, 4), (69, 2, 4),
+            (59, 4, 6), (62, 4, 6), (67, 4, 6), (60, 6, 8), (64, 6, 8), (67, 6, 8)]
+    out.append({'op': 'chords_e2e', 'input': {   # C E G + half-frame Bb | F | G | C  (seeded change C19-1): C F G C, not C7
+        'mode': 'fixed', 'num': 4, 'den': 4, 'spq': 4, 'qpm': 120, 'cpb': 2, 'spc': S, 'steps_per_chord': 8, 'total': 4 * S,
+        'notes': [[p, a * S // 2, b * S // 2] for p, a, b in demo], 'k': 5, 'addkeys': True, 'params': {}}})
     out.append({'op': 'melody_vit', 'input': {'pitches': [60], 'trans': [[0, 0, None], [0, 0, 0], [0, 0, 0]],
                                                'frames': [[None, None, None], [None, None, None]]}})
     return out
@@ -341,6 +376,8 @@ def cases(rng, tier, n=None):
             inp.update({'mode': rng.choice(['beats', 'beats_q']), 'beats': beats, 'total': total,
                         'notes': _gen_chord_notes(rng, ft, total)})
         out.append({'op': 'chords_e2e', 'input': inp})
+    for _ in range(300 if thorough else 30):
+        out.append(_gen_near_tie_first_frame(rng))
     for i in range(4000 if thorough else 150):
         notes, total = _gen_melody_notes(rng, rng.randint(1, 100 if thorough and i % 10 == 0 else 12))
         out.append({'op': 'melody_e2e', 'input': {'notes': notes, 'total': total, 'k': rng.randint(1, 11),
@@ -652,9 +689,47 @@ def _impl_chords_e2e(a):
         anns = [[_tk(ta.time), names.get(ta.text, ta.text), int(ta.quantized_step)] for ta in seq.text_annotations
                 if ta.annotation_type == CH]
         keys = [[_tk(k.time), int(k.key)] for k in seq.key_signatures]
-        out.append({'attained': attained, 'best': best, 'anns': anns, 'keys': keys, 'frames': int(frame_ll.shape[0]),
-                    'path': path, 'finite': bool(np.isfinite(best))})
+        doc = _documented_chord_model(a, kw, shift)
+        r = {'attained': attained, 'best': best, 'anns': anns, 'keys': keys, 'frames': int(frame_ll.shape[0]),
+             'path': path, 'finite': bool(np.isfinite(best))}
+        # the key/chord path the RETURNED annotations denote (keys from the key signatures when they were requested,
+        # otherwise from the Viterbi result, whose chords the oracle checks against the annotations)
+        times = _frame_times(a)
+        if doc is not None and len(times) == doc['frame_ll'].shape[0]:
+            figs = [_in_force(anns, t) for t in times]
+            ks = [_in_force(keys, t) for t in times] if a['addkeys'] else [s // nc for s in path]
+            if len(ks) == len(figs) and all(isinstance(f, int) for f in figs) and all(isinstance(k, int) for k in ks):
+                fl, lkc, ltr = doc['frame_ll'], doc['log_kc'], doc['log_trans']
+                dinit = np.array([(-np.log(12) + lkc[i // nc, i % nc]) + fl[0, i % nc] for i in range(12 * nc)])
+                dframes = [np.tile(fl[t], 12) for t in range(1, fl.shape[0])]
+                r['attained_doc'] = _float_path_score(dinit, ltr, dframes, [k * nc + f for k, f in zip(ks, figs)])
+                r['best_doc'] = _float_dp(dinit, ltr, dframes)
+        out.append(r)
     return ['OK', out]
+
+
+def _documented_chord_model(a, kw, shift):
+    """The HMM as infer_chords_for_sequence documents it, rebuilt OUTSIDE that function from the library's own building
+    blocks: frame log-likelihoods of the pitch vectors on the case's frame grid, LOG of the chord-given-key distribution
+    (plus the uniform key prior) for the first frame, LOG of the key-chord transition distribution afterwards."""
+    import inspect
+    import numpy as np
+    from note_seq import chord_inference as ci
+    dflt = dict((k, v.default) for k, v in inspect.signature(ci.infer_chords_for_sequence).parameters.items()
+                if v.default is not inspect.Parameter.empty)
+    par = lambda name: kw.get(name, dflt[name])
+    try:
+        fresh = _chord_proto(a, a['notes'], shift=shift)
+        grid = _sec(a['spc']) if a['mode'] == 'fixed' else [_sec(t) for t in _frame_times(a)[1:]]
+        with np.errstate(divide='ignore'), _memo_transition():
+            vec = ci.sequence_note_pitch_vectors(fresh, grid)
+            fl = ci._chord_frame_log_likelihood(vec, par('chord_note_concentration'))
+            dist = ci._key_chord_distribution(chord_pitch_out_of_key_prob=par('chord_pitch_out_of_key_prob'))
+            tr = ci._key_chord_transition_distribution(dist, key_change_prob=par('key_change_prob'),
+                                                       chord_change_prob=par('chord_change_prob'))
+            return {'frame_ll': fl, 'log_kc': np.log(dist), 'log_trans': np.log(tr)}
+    except Exception:
+        return None
 
 
 def _impl_melody_e2e(a):
@@ -966,6 +1041,11 @@ def oracle(case, io):
                 return {'kind': 'chords-e2e-frame-count', 'frames': r['frames'], 'expected': len(times)}
             if not r['attained'] == r['best']:
                 return {'kind': 'chords-e2e-path-not-maximum-likelihood', 'attained': r['attained'], 'best': r['best']}
+            if 'best_doc' not in r:
+                return {'kind': 'chords-e2e-documented-model-not-evaluable'}
+            if not r['attained_doc'] >= r['best_doc'] - 1e-9 * max(1.0, abs(r['best_doc'])):
+                return {'kind': 'chords-e2e-annotations-not-maximum-likelihood-of-documented-model',
+                        'attained': r['attained_doc'], 'best': r['best_doc']}
             v = _check_annotations('chords-e2e-annotation', r['anns'], times, [s % nc for s in r['path']])
             if not v and a['addkeys']:
                 v = _check_annotations('chords-e2e-key-signature', r['keys'], times, [s // nc for s in r['path']])
